@@ -1,7 +1,7 @@
 (* Property C19 - wait_until: the inner future/stream is untouched until the deadline resolves. *)
 From Coq Require Import List Arith Bool.
 Import ListNotations.
-Require Import ScanFull InstsFull Pass C11Groups PassProofs Monitors.
+Require Import ScanFull InstsFull Pass C11Groups PassProofs Monitors LivePass.
 
 (* child 0 = the deadline, child 1 = the inner future (stream = false) or stream (stream = true).
    [Pw s t]: before the deadline resolved every child poll is (deadline, Pending) and nothing has been returned; afterwards the poll list is
@@ -26,3 +26,18 @@ Theorem C19_gate_predicate_holds stream scs ops :
   dropped _ w = false -> wait_b (strip (tr _ w)) = true.
 Proof. exact (wait_b_holds stream scs ops). Qed.
 Print Assumptions C19_gate_predicate_holds.
+
+(* ---- and it does resolve (the future form): deadline and inner future each scripted Pending* then Ready; under EVERY schedule of waker invocations
+        and polls containing more than k0 + k1 polls, one of the first k0 + k1 + 1 polls returns the inner future's output.  (wait_until hands the
+        caller's waker straight to the deadline and to the inner future - C01_wait_until - so only being polled matters.) *)
+Theorem C19_wait_until_resolves_under_any_schedule d i ops k0 k1 :
+  goodf d = true -> goodf i = true -> lead d = Some k0 -> lead i = Some k1 -> sched ops -> k0 + k1 < npolls ops ->
+  exists ops1 p ops2, ops = ops1 ++ p :: ops2 /\ is_poll p = true /\ npolls ops1 <= k0 + k1 /\
+    let w1 := wait_world false [d; i] ops1 in
+    finished _ w1 = false /\ dropped _ w1 = false /\ returns ust w1 (p_step ust wait_poll u_drops w1 p).
+Proof. exact (wait_until_returns d i ops k0 k1). Qed.
+Print Assumptions C19_wait_until_resolves_under_any_schedule.
+Example C19_resolves_witness :
+  let P := {| fires := []; answer := APend |} in let R v := {| fires := []; answer := AReady (ROk v) |} in
+  map (fun k => results (strip (tr _ (wait_world false [[P; R 0]; [P; P; R 7]] (repeat OPollFresh k))))) [3; 4] = [[]; [OVals [7]]].
+Proof. vm_compute. reflexivity. Qed.
